@@ -139,9 +139,11 @@ def run_impl(binp, scenarios):
 
 
 def normalize_impl(lines):
-    """drop the driver-only trailing field (specification-level tracking flag) of read / track lines"""
+    """drop the driver-only trailing field (specification-level tracking flag) of read / track lines and the driver-only write lines"""
     out = []
     for l in lines:
+        if l.startswith("write "):        # driver-only: the position of a notifying write inside the statement
+            continue
         if l.startswith("read ") or l.startswith("track "):
             l = l.rsplit(" ", 1)[0]
         out.append(l)
